@@ -2,7 +2,7 @@ SPECIFICATION Spec
 CONSTANTS
   Tables <- MCTables
   TokText <- MCTokText
-  TokSets <- TokHist
+  TokSets <- TokHistQ
   MaxArgs = 2
   Flags0 <- MCFlags0
   Int0 <- MCInt0
